@@ -35,7 +35,7 @@ func c01Progs() []func() *LazyProgram {
 	return ps
 }
 
-var c01Alpha = []Beh{BPass, BSkip, BErrorf, BErrorfSkip, BFatalA, BFatalB, BFailNowC, BPanicStr, BPanicErr, BNilDeref, BCleanupErrorf, BCleanupPanic, BGoErrorf, BCleanupErrorfSkip, BCleanupSkip, BErrorfReject}
+var c01Alpha = []Beh{BPass, BSkip, BErrorf, BErrorfSkip, BFatalA, BFatalB, BFailNowC, BPanicStr, BPanicErr, BNilDeref, BCleanupErrorf, BCleanupPanic, BGoErrorf, BCleanupErrorfSkip, BCleanupSkip, BErrorfReject, BCleanupPass}
 
 // cutPoints: shrinktime values in virtual ms (= number of shrink-phase invocations allowed).
 func cutPoints(s int, quick bool) []int {
